@@ -24,7 +24,9 @@
 #include <cstring>
 #include <iostream>
 #include <memory>
+#include <atomic>
 #include <sstream>
+#include <thread>
 #include <string>
 #include <type_traits>
 #include <vector>
